@@ -177,7 +177,7 @@ func VP_C14_tokens() {
 		// operator-dense alphabet (longer texts at the same cost)
 		for _, c := range text {
 			ok := false
-			for _, a := range []byte("=!.&|?<>+a1 \n") {
+			for _, a := range []byte("=!.&|?<>+a1 \n\xc2\xa0") { // incl. the two bytes of NBSP
 				if c == a {
 					ok = true
 				}
